@@ -56,4 +56,106 @@ theorem dissect_build_v4 (f : Frame) (h : V4) (hn : f.net = .v4 h) (w : f.WF) :
     simp only [Upper.proto, Upper.encode, transportOf, udpView_encode u wu, this]
     simp
 
+example : ∃ f : Frame, f.WF ∧ (∃ h, f.net = .v4 h ∧ h.options ≠ [] ∧ h.mf = true) ∧ f.trailer ≠ [] :=
+  ⟨⟨[1, 2, 3, 4, 5, 6], [7, 8, 9, 10, 11, 12],
+    .v4 ⟨0, 7, true, true, 64, 0, [10, 0, 0, 1], [10, 0, 0, 2], [1, 1, 1, 0]⟩,
+    .tcp ⟨443, 50000, 1000, 2000, 0x18, 0, 8192, 0, 0, [1, 1, 1, 1], [0x16, 3, 3]⟩, [0, 0, 0]⟩,
+   by simp [Frame.WF, Upper.WF, Tcp.WF, V4.WF, Upper.encode, Tcp.encode, Tcp.header, be2, be4], ⟨_, rfl, by simp, rfl⟩, by simp⟩
+
+/-! ### totality and the exception kinds -/
+
+/-- For ALL byte strings: attributes, or one of six exception classes (nothing else can leave `Ethernet(buf)`). -/
+theorem dissect_total (b : Bytes) :
+    (∃ d, dissect b = .ok d) ∨
+    (∃ e, e ∈ [DErr.needData, .unpack, .index, .attribute, .pack, .recursion] ∧ dissect b = .error e) := by
+  cases h : dissect b with
+  | ok d => exact .inl ⟨d, rfl⟩
+  | error e => exact .inr ⟨e, by cases e <;> simp, rfl⟩
+
+/-- a frame shorter than an Ethernet header: `dpkt.NeedData` (the run aborts) -/
+theorem short_frame_aborts (b : Bytes) (h : b.length < 14) : dissect b = .error .needData := by
+  unfold dissect dissectD
+  have hb : (defaultBase + 1 : Dep) = ⟨5, 5⟩ := rfl
+  rw [hb, parse, show Layer.eth.cUnits = 5 from rfl, enter_ok _ 5 (by simp)]
+  simp only [body, ethLayer, ethUnpack]
+  rw [need_ok _ (by simp)]
+  simp [h, bind, Except.bind]
+
+instance : DecidableEq (Except DErr Dissected) := fun a b =>
+  match a, b with
+  | .ok x, .ok y => if h : x = y then isTrue (by rw [h]) else isFalse (fun h' => h (by cases h'; rfl))
+  | .error x, .error y => if h : x = y then isTrue (by rw [h]) else isFalse (fun h' => h (by cases h'; rfl))
+  | .ok _, .error _ => isFalse (fun h => by cases h)
+  | .error _, .ok _ => isFalse (fun h => by cases h)
+
+namespace Ex
+/-- shortest inputs per exception class (each replayed on the real `Packet` by harness/ib_ingest.py) -/
+def needData : Bytes := []
+/-- 802.3 length 3, LLC `aa aa 03` with no room for the SNAP header: UnpackError('invalid LLC') -/
+def unpack : Bytes := [0, 0, 0, 0, 0, 0, 0, 0, 0, 0, 0, 0, 0, 3, 0xaa, 0xaa, 3]
+/-- MPLS, one label with the bottom-of-stack bit, nothing behind it: `buf[0]` → IndexError -/
+def index : Bytes := [0, 0, 0, 0, 0, 0, 0, 0, 0, 0, 0, 0, 0x88, 0x47, 0, 0, 1, 0]
+/-- IPv6, fragment header (offset 0) followed by an (empty) destination options header — RFC 8200 order — :
+    `ext.frag_off` is read from the LAST extension header → AttributeError -/
+def attributeErr : Bytes :=
+  [0, 0, 0, 0, 0, 0, 0, 0, 0, 0, 0, 0, 0x86, 0xdd] ++ [0x60, 0, 0, 0, 0, 16, 44, 64] ++ List.replicate 32 0 ++
+  [60, 0, 0, 0, 0, 0, 0, 1] ++ [59, 0, 1, 4, 0, 0, 0, 0]
+/-- 248 Ethernet headers with EtherType 0x6558 (TEB) inside each other: RecursionError (`python -m tlexport.main`) -/
+def recursion : Bytes := (List.replicate 248 ([0, 0, 0, 0, 0, 0, 0, 0, 0, 0, 0, 0, 0x65, 0x58] : Bytes)).flatten ++ List.replicate 14 0
+/-- CDP TLV with length field 0 in front of 65536 bytes: `bytes(tlv)` → PackError -/
+def pack : Bytes := [0, 0, 0, 0, 0, 0, 0, 0, 0, 0, 0, 0, 0x20, 0x00, 2, 180, 0, 0] ++ List.replicate 65536 0
+
+theorem needData_aborts : dissect needData = .error .needData := by decide +kernel
+theorem unpack_aborts : dissect unpack = .error .unpack := by decide +kernel
+theorem index_aborts : dissect index = .error .index := by decide +kernel
+theorem attribute_aborts : dissect attributeErr = .error .attribute := by decide +kernel
+theorem recursion_aborts : dissect recursion = .error .recursion := by decide +kernel
+theorem pack_aborts : dissect pack = .error .pack := by decide +kernel
+end Ex
+
+/-- every listed kind occurs -/
+theorem kinds_inhabited :
+    ∀ e ∈ [DErr.needData, .unpack, .index, .attribute, .recursion, .pack], ∃ b, dissect b = .error e := by
+  intro e he
+  simp only [List.mem_cons, List.mem_nil_iff, or_false] at he
+  rcases he with rfl | rfl | rfl | rfl | rfl | rfl
+  · exact ⟨_, Ex.needData_aborts⟩
+  · exact ⟨_, Ex.unpack_aborts⟩
+  · exact ⟨_, Ex.index_aborts⟩
+  · exact ⟨_, Ex.attribute_aborts⟩
+  · exact ⟨_, Ex.recursion_aborts⟩
+  · exact ⟨_, Ex.pack_aborts⟩
+
+/-! ### what never reaches a session -/
+
+open TLX.MainLoop in
+/-- A frame that is not TCP / UDP over IP (any EtherType, ARP, LLC, a later fragment, ICMP, damaged headers that dpkt
+    swallows, …) becomes `L4.other`; the main loop ignores it: the run's state is what it was. -/
+theorem non_ip_ignored {κ σ τ ο : Type} (c : Bool) (tag us : Nat) (buf : Bytes) (p : Pkt) (i : Pipeline.Info)
+    (h : Ingest.framePkt c tag us buf = .ok (p, i))
+    (hn : ∀ x, dissect buf = .ok (.ip x) → x.l4 = .other) :
+    p.l4 = .other ∧
+    ∀ (o : Opts), (classify o (.frame p) : Class κ) = .ignore .notTcpUdp ∧
+      ∀ (TM : TlsMachine κ σ ο) (QM : QuicMachine κ τ ο) (st : State κ σ τ), step TM QM o st (.frame p) = st := by
+  have hp : p.l4 = .other := by
+    unfold Ingest.framePkt at h
+    cases hd : dissect buf with
+    | error e => simp [hd] at h
+    | ok d =>
+      cases d with
+      | notIp =>
+        simp only [hd] at h
+        cases h; rfl
+      | ip x =>
+        have hx := hn x hd
+        simp only [hd] at h
+        cases hv : (if c then Ingest.verdict x else .ok none) with
+        | error e => simp [hv] at h
+        | ok v =>
+          simp only [hv, hx] at h
+          cases h; rfl
+  refine ⟨hp, fun o => ?_⟩
+  have hc : (classify o (.frame p) : Class κ) = .ignore .notTcpUdp := by simp [classify, hp]
+  exact ⟨hc, fun TM QM st => by simp [step, hc]⟩
+
 end TLX.Props.C12Dissect
